@@ -274,9 +274,13 @@ RAISE_SHAPES = {
 
 def r_val_strength(model, rep, tier):
     """per field: the assertions found are at least as strong as the obligation table"""
+    r_val_strength_rows(model, rep, VAL_OBLIGATIONS)
+    rep.floor("R-VAL-STRENGTH", 80)
+
+
+def r_val_strength_rows(model, rep, rows, rule_id="R-VAL-STRENGTH"):
     by_cls = {}
-    U_cache = {}
-    for row in VAL_OBLIGATIONS:
+    for row in rows:
         q, field, kind, req, allowed_guards = row
         cls = model.cls(q)
         if q not in by_cls:
@@ -284,7 +288,7 @@ def r_val_strength(model, rep, tier):
         found = [a for a in by_cls[q] if a.field == field and a.kind == kind]
         construct = "%s.%s:%s" % (q, field, kind)
         if not found:
-            rep.ob("R-VAL-STRENGTH", construct, False, site="productmd/%s.py" % cls.module.name,
+            rep.ob(rule_id, construct, False, site="productmd/%s.py" % cls.module.name,
                    msg="no %s assertion on field %r is run by validate() of %s" % (kind, field, q))
             continue
         ok_any = False
@@ -341,11 +345,10 @@ def r_val_strength(model, rep, tier):
                     ok = False
                     msgs.append("expected call of %s" % req)
             ok_any = ok_any or ok
-        rep.ob("R-VAL-STRENGTH", construct, ok_any,
+        rep.ob(rule_id, construct, ok_any,
                site="%s:%s" % (found[0].defcls.module.rel(), found[0].lineno),
                msg="; ".join(msgs) if not ok_any else "",
                facts={"found": [repr(a) for a in found][:3]})
-    rep.floor("R-VAL-STRENGTH", 80)
 
 
 def r_val_cover(model, rep):
